@@ -112,6 +112,8 @@ def circ_entry(rng, kind, cid, n1, n2):
             val['R'] = v0(); exp['R'] = val['R']
     elif kind == 'ac_voltage_source':
         val = {'V': s * v(), 'w': v(), 'phi': rng.uniform(-7, 7)}; exp = {'V': val['V'], 'R': 0, 'w': val['w'], 'phi': val['phi']}
+        if rng.random() < 0.25:                    # a sinusoid that does not oscillate is still V cos(phi): the phase is part of the value
+            val['w'] = 0; exp['w'] = 0
         if rng.random() < 0.5:
             val['R'] = v(); exp['R'] = val['R']
     elif kind == 'complex_voltage_source':
@@ -124,6 +126,8 @@ def circ_entry(rng, kind, cid, n1, n2):
             val['G'] = g0(); exp['G'] = val['G']
     elif kind == 'ac_current_source':
         val = {'I': s * v(), 'w': v(), 'phi': rng.uniform(-7, 7)}; exp = {'I': val['I'], 'G': 0, 'w': val['w'], 'phi': val['phi']}
+        if rng.random() < 0.25:
+            val['w'] = 0; exp['w'] = 0
         if rng.random() < 0.5:
             val['G'] = 1 / v(); exp['G'] = val['G']
     elif kind == 'complex_current_source':
@@ -147,7 +151,7 @@ def rnd_doc(rng, depth=0):
         if c < 0.65:
             return rng.randint(-5, 5)
         if c < 0.8:
-            return rng.choice(['abc', '', 'Ω', 'real'])
+            return rng.choice(['abc', '', 'Ω', 'real', '1e3', '2E5'])          # texts that look like numbers to some YAML readers, not to this one
         if c < 0.9:
             return rng.choice([True, False, None])
         return rng.choice([[], {}])
@@ -278,7 +282,8 @@ def judge_net(case, ctx, prefix):
     for k in range(case['loads']):
         if case['via_file'] and k == 0:
             with tempfile.TemporaryDirectory() as td:
-                fn = os.path.join(td, 'net.json')
+                os.makedirs(os.path.join(td, 'proj.d'), exist_ok=True)
+                fn = os.path.join(td, 'proj.d', 'net.v2.json')          # dots in the directory and in the stem: only the last suffix is the format
                 with open(fn, 'w') as f:
                     json.dump(entries, f)
                 net = call(loaders.load_network_from_json, fn)
@@ -401,7 +406,8 @@ def judge_doc(case, ctx, prefix):
     feature = ('complex' if has_complex(doc) else 'no-complex') + ('+list' if 'L' in shape(doc) else '')
     if case['via_file']:
         with tempfile.TemporaryDirectory() as td:
-            fn = os.path.join(td, 'doc.' + fmt)
+            os.makedirs(os.path.join(td, 'proj.d'), exist_ok=True)
+            fn = os.path.join(td, 'proj.d', 'doc.v2.' + fmt)            # dots in the directory and in the stem: only the last suffix is the format
             r = call(dl.dump, fn, doc)
             back = call(dl.load, fn) if not raised(r) else r
     else:
@@ -462,6 +468,17 @@ def judge_cplx(case, ctx, prefix):
         ctx.violation(f'{prefix}/undictify_complex_values/raised/{u.type}', u.text, {})
     else:
         forms.update({'undictify-cartesian': u['c'], 'undictify-polar': u['p'], 'undictify-degree': u['d']})
+    import json as _json
+    import yaml as _yaml
+    for fmt, dump in (('json', _json.dumps), ('yaml', lambda d: _yaml.safe_dump(d))):
+        for nm, doc in (('polar-rad', {'list': [{'V': {'abs': mag, 'phase': ph}}]}), ('polar-deg', {'V': {'abs': mag, 'phase_deg': math.degrees(ph)}})):
+            got = call(dl.deserialize, dump(doc), fmt)       # a hand-written file whose complex numbers are all polar
+            v = got if raised(got) else (got['list'][0]['V'] if 'list' in got else got['V'])
+            if raised(v) or isinstance(v, (complex, int, float)):
+                forms[f'text-{fmt}-{nm}'] = v
+            else:
+                ctx.violation(f'{prefix}/complex-notation/not-converted/text-{fmt}-{nm}', f'{fmt} text {dump(doc)!r} was read as {got!r}: the polar notation was not turned into a number', {})
+            ctx.count('polar_only_text_documents')
     for nm, v in forms.items():
         if raised(v):
             ctx.violation(f'{prefix}/complex-notation/raised/{nm}/{v.type}', v.text, {})
